@@ -1,7 +1,7 @@
 """Registry of the checks ./check implements.  MANIFEST.json is generated from it
 (tools/gen_manifest.py)."""
 
-HOOK_COMMITS = ["cf3ff38", "68dfd22", "3f6de41"]
+HOOK_COMMITS = ["cf3ff38", "68dfd22", "3f6de41", "7280be0"]
 
 COMMON_TB = ["TLC 1.8.0 (tla2tools.jar) incl. CommunityModules Json/IOUtils",
              "the Go toolchain and the harness drivers in /verif/harness",
@@ -37,7 +37,7 @@ CHECKS["C13"] = {
     "trusted_base": COMMON_TB,
 }
 
-HOOK_COMMITS = ["cf3ff38", "68dfd22", "3f6de41"]
+HOOK_COMMITS = ["cf3ff38", "68dfd22", "3f6de41", "7280be0"]
 
 TC_TB = COMMON_TB + ["the in-process coordinator stand-in (harness/tc): a fake getty.Session registered through the "
                      "public OnOpen entry point; requests travel through the real GettyRemotingClient, session "
